@@ -77,11 +77,14 @@ PROPS = {
             "theorems": ["RModel.Impl.wf_implies_validate", "RModel.Impl.validate_implies_wf_of_decoded", "RModel.BSet.canon_ext"] + F_THRESH,
             "modules": DEFAULT_MODULES + [FACTS, "RProofs.Properties.C09"],
             "owns": {"wf", "kernwf"}},
-    "C10": {"suites": [("fuzzdec", 1.0)],
+    "C10": {"suites": [("fuzzdec", 1.0), ("fuzzfrozen", 0.5)], "corpus": ["corpus/C10/frozen-bitmap4096.txt"],
             "theorems": ["RModel.Impl.decode_no_panic", "RModel.Impl.prefix_rejected", "RModel.Impl.decode_shape",
                          "RModel.Impl.decoded_valid_is_wf", "RModel.Impl.validate_implies_wf_of_decoded",
                          "RModel.BSet.canon_ext"] + F_SERIAL,
             "modules": DEFAULT_MODULES + [FACTS, "RProofs.Properties.C09", "RProofs.Properties.C05"], "owns": None},
+    "C13": {"suites": [("frozen", 1.0), ("frozenmis", 0.5)], "theorems": ["RModel.BSet.canon_ext", "RModel.Facts.frozenCookie_spec"],
+            "modules": DEFAULT_MODULES + [FACTS],
+            "owns": {"frz", "frzsmall", "frzwfail", "fview", "fdec", "fspec", "fchk", "fgc", "wf", "dig", "eq", "card", "toarr"}},
     "C14": {"suites": [("hist", 1.0), ("alg", 0.7), ("xform", 0.5), ("thresh", 0.5)],
             "theorems": ["RModel.Impl.readme_bound", "RModel.Impl.bound_function", "RModel.BSet.canon_ext"] + F_SERIAL,
             "modules": DEFAULT_MODULES + [FACTS, "RProofs.Properties.C14"], "owns": {"size"}},
